@@ -200,16 +200,25 @@ def printed(out, tag):
 
 
 def printed_tuples(out, tag):
-    """Extracts PrintT(<<"TAG", a, b, ...>>) lines as python tuples (strings/ints)."""
+    """Extracts PrintT(<<"TAG", a, b, ...>>) values as python tuples (strings/ints).  TLC prints a tuple that does not
+    fit its line width over several lines (<< "TAG",\n   1,\n   "..." >>): those are joined."""
     res = []
-    for line in out.splitlines():
-        if not line.startswith('<<"' + tag + '"'):
+    lines = out.splitlines()
+    i = 0
+    while i < len(lines):
+        line = lines[i]
+        i += 1
+        if not (line.startswith('<<"' + tag + '"') or line.startswith('<< "' + tag + '"')):
             continue
-        body = line.strip()[2:-2]
+        buf = line.strip()
+        while not buf.endswith(">>") and i < len(lines):
+            buf += " " + lines[i].strip()
+            i += 1
+        body = buf[2:-2].strip()
         try:
             res.append(ast.literal_eval("(" + body + ",)"))
         except Exception:
-            continue
+            raise Infra("cannot parse a %s line printed by TLC: %r" % (tag, buf[:300]))
     return res
 
 
